@@ -1,12 +1,14 @@
 (* Extraction of the open-addressing table models (library handle cache back/dlcache.c, and the
    strtab / functab instances) for the correspondence harness harness/ocaml/hash/hashrun.ml.
    ExtrOcamlBasic only: nat, N, positive stay extracted datatypes; the driver converts them.
-   Model sources: NV.Hash.OpenTabModel NV.Hash.DlCacheModel *)
+   Model sources: NV.Hash.OpenTabModel NV.Hash.DlCacheModel NV.Hash.StrTabModel NV.Hash.FuncTabModel *)
 From Coq Require Import ExtrOcamlBasic.
-From NV Require Import Hash.OpenTabModel Hash.DlCacheModel.
+From NV Require Import Hash.OpenTabModel Hash.DlCacheModel Hash.StrTabModel Hash.FuncTabModel.
 
 Extraction "hashmodel.ml"
   hash_string cname_eqb
   dl_entry_new dl_entry_add dl_entry_lookup dl_entry_resize
   dl_new dl_add_dl dl_lookup dl_get_handle dl_resize
-  slot_at.
+  slot_at
+  str_new str_add str_lookup str_to_array
+  ft_new ft_add ft_lookup.
